@@ -308,6 +308,20 @@ def check_search(m, f, schema, res_wl, res_bound):
             op, a, b = tt_[1], strip_cast(tt_[2]), strip_cast(tt_[3])
             if not pol:
                 op = {'<': '>=', '>': '<=', '<=': '>', '>=': '<'}[op]
+            # dist[v] - cand > tol  /  tol < dist[v] - cand : a relaxation with a tolerance
+            diff, tol, gt = (a, b, op in ('>', '>=')) if a[0] == 'bin' and a[1] == '-' else ((b, a, op in ('<', '<=')) if b[0] == 'bin' and b[1] == '-' else (None, None, None))
+            if diff is not None and gt:
+                dv, cand0 = strip_cast(diff[2]), strip_cast(diff[3])
+                if dv[0] == 'idx' and dv[1][0] == 'var' and dv[2] == v:
+                    if strip_cast(tol) in (('int', 0), ('float', 0.0)):
+                        a, b, op = cand0, dv, '<'
+                    else:
+                        verdict = ('wl-only', ins['i'],
+                                   'the relaxation guard `%s` accepts a candidate only when it improves the distance by more than a '
+                                   'tolerance: smaller improvements are ignored, so the distances returned are not the minimum '
+                                   '(exactly representable path sums included)' % show(tt_, f.unit)[:70])
+                        marker = ('relax', dv[1][1], ('>', cand0))
+                        break
             if b[0] == 'idx' and b[1][0] == 'var' and b[2] == v:
                 form = ('relax', b[1][1], (op, a))
             elif a[0] == 'idx' and a[1][0] == 'var' and a[2] == v:
@@ -378,6 +392,12 @@ def check_search(m, f, schema, res_wl, res_bound):
             # guarded by first discovery / `<=`): the deviation costs work (C19), not correctness
             res.ok(dict(function=disp, schema=schema, check='insert-once', note='not required for the results; see F-WL.bound'))
             continue
+        if verdict is not None and verdict[0] == 'wl-only':
+            if res is res_wl:
+                fail(res, 'insert-once', verdict[1], verdict[2])
+            else:
+                res.ok(dict(function=disp, schema=schema, check='insert-once', note='a tolerance only removes insertions; see F-WL'))
+            continue
         if verdict is not None and verdict[0] == 'bound-only':
             if res is res_wl:
                 res.ok(dict(function=disp, schema=schema, check='insert-once', note='mixed precision costs work, not results; see F-WL.bound'))
@@ -394,6 +414,8 @@ def check_search(m, f, schema, res_wl, res_bound):
             fail(res, 'insert-once', verdict[1], verdict[2])
     if verdict is not None and verdict[0] == 'bound-only':
         verdict = ('holds', verdict[3], verdict[4])
+    if verdict is not None and verdict[0] == 'wl-only':
+        return s
     if verdict is None or (verdict[0] != 'holds' and schema != 'S-BFS-ALL'):
         return s
     s.marker = marker
@@ -637,6 +659,22 @@ def check_heap(m, f, res):
         if lam is None:
             res.broken('F-HEAP: comparator of %s is not a local lambda' % disp)
             return
+        # the keys the comparator reads must be the live tentative distances: captured by reference, not copied
+        lam_expr = [n for n in f.nodes if n['k'] == 'LambdaExpr' and u.function_for_decl(n['callop']) is lam]
+        by_value = []
+        for le in lam_expr:
+            for c in le.get('captures', []):
+                if not c.get('byref') and not c.get('this') and 'd' in c and \
+                        u.decl(c['d']).get('ctype', '').startswith('std::vector<'):
+                    by_value.append(u.decl(c['d'])['name'])
+        res.sites += 1
+        if by_value:
+            res.fail(Finding('F-HEAP', disp, 'comparator capture', lam.where(),
+                             'the heap comparator captures `%s` by value: it orders the queue by a snapshot taken when the lambda was '
+                             'created, not by the current tentative distances, so vertices are extracted in arbitrary order and '
+                             're-scanned after every later improvement' % by_value[0]))
+            return
+        res.ok(dict(function=disp, check='comparator reads the live distance array (captured by reference)'), fn=disp)
         ltt = Terms(lam)
         rets = [n for n in lam.nodes if n['k'] == 'ReturnStmt']
         t = ltt.t(lam.children(rets[0]['i'])[0]) if len(rets) == 1 else ('none',)
